@@ -76,12 +76,18 @@ func c09Plan(seed int64, tier string) []core.Case {
 	for _, wl := range rls {
 		for _, rd := range confs {
 			for _, cch := range []int64{0, 1} {
-				for _, br := range []int64{1, 0} {
+				for _, br := range []int64{1, 0, 2} {
 					if tier != "thorough" && br == 0 && cch == 1 {
 						continue
 					}
+					if br == 2 && (wl != "readall" || cch == 1) {
+						continue // the source that cannot seek: sequential workload only
+					}
 					K, KS := c09CountReader(seed, wl, int(rd), int(cch), int(br))
 					for _, mode := range []int64{0, 1, 2} {
+						if br == 2 && mode == 2 {
+							continue
+						}
 						top := K + 2
 						if mode == 2 {
 							top = KS + 1
@@ -89,6 +95,14 @@ func c09Plan(seed int64, tier string) []core.Case {
 						step := 1
 						if tier != "thorough" && br == 0 {
 							step = 3
+						}
+						if br == 2 {
+							// 61 bytes per underlying read: the fault index walks
+							// through every member in small steps
+							step = 2
+							if tier != "thorough" {
+								step = 9
+							}
 						}
 						for k := 1; k <= top; k += step {
 							for _, d := range delays {
@@ -504,6 +518,10 @@ func c09CountReader(seed int64, wl string, rd, cch, br int) (int, int) {
 	if br == 1 {
 		src = mon.FaultByteReader{FaultReader: fr}
 	}
+	if br == 2 {
+		fr.MaxRead = 61
+		src = struct{ io.Reader }{fr}
+	}
 	r := core.NewResult()
 	c09DriveReader(r, "count", wl, f, src, rd, cch, core.SubSeed(seed, "hist", wl), fr)
 	calls := fr.Calls
@@ -530,7 +548,11 @@ func c09Reader(r *core.Result, c core.Case) {
 	if br == 1 {
 		src = mon.FaultByteReader{FaultReader: fr}
 	}
-	cfg := fmt.Sprintf("reader workload=%s rd=%d cache=%v bytereader=%v fault at underlying call %d mode=%s delay=%dms", wl, rd, cch == 1, br == 1, k, []string{"error", "partial+error", "seek-error"}[mode], c.Int("delay"))
+	if br == 2 {
+		fr.MaxRead = 61
+		src = struct{ io.Reader }{fr} // no Seek, no ReadByte
+	}
+	cfg := fmt.Sprintf("reader workload=%s rd=%d cache=%v source=%s fault at underlying call %d mode=%s delay=%dms", wl, rd, cch == 1, []string{"seekable", "seekable+ByteReader", "not seekable"}[br], k, []string{"error", "partial+error", "seek-error"}[mode], c.Int("delay"))
 	c09DriveReader(r, cfg, wl, f, src, rd, cch, core.SubSeed(fseed, "hist", wl), fr)
 	r.FP = core.Hash(cfg, c.Int("rep"))
 	r.Nontrivial = fr.Hit
